@@ -1,5 +1,5 @@
 Require Import Coq.extraction.Extraction.
 Require Import Coq.extraction.ExtrOcamlBasic.
-From ApiFu Require Import Base.Sexp Pipe.PipelineCheck.
+From ApiFu Require Import Base.Sexp Pipe.ComposeCheck.
 Extraction Language OCaml.
-Extraction "c03.ml" PipelineCheck.check.
+Extraction "c03.ml" ComposeCheck.check.
